@@ -29,7 +29,7 @@ PROFILES = {
     "C09": dict(world={"seg": True, "feats": "iou"}, w={"paint": 7, "add_edge": 5, "enable": 0.6, "disable": 0.4}, steps=(8, 40), iou_toggle=True),
     "C10": dict(world={}, w={"enable": 4, "disable": 3, "update_attrs": 3, "query": 0.3}, steps=(10, 50), toggle_ids=True),
     "C11": dict(world={}, w={"add_edge": 6, "add_node": 5, "paint": 5, "swap": 2, "update_attrs": 2, "enable": 0.05, "disable": 0.02}, steps=(10, 60), f1=(0.4,), trap=True),
-    "C14": dict(world={"p_big": 0.03}, w={"reimport": 2.5, "restart": 0.8, "enable": 0.15, "disable": 0.15}, steps=(4, 25), io=True, explicit_tracks=True),
+    "C14": dict(world={"p_big": 0.03}, w={"reimport": 2.5, "restart": 0.8, "save": 0.8, "enable": 0.15, "disable": 0.15}, steps=(4, 25), io=True, explicit_tracks=True),
     "C15": dict(world={"p_big": 0.08}, w={"export": 3, "enable": 0.1, "disable": 0.0}, steps=(4, 25), io=True, subset=1.0, explicit_tracks=True),
     "C16": dict(world={"p_big": 0.03}, w={"query": 3, "export": 2, "save": 1, "enable": 0.1, "disable": 0.0}, steps=(4, 30), io=True),
     "C20": dict(world={}, w={"primitive": 1, "query": 0.5, "enable": 0.2, "disable": 0.1}, steps=(10, 60), f1=(0.1, 0.4), subs=True),
@@ -215,6 +215,9 @@ def gen_op(rng: random.Random, cfg: dict, kind: str | None = None) -> dict:
         if kind == "reimport" and cfg.get("tier") == "thorough":
             fmts = fmts + ["csv_names"]
         op.update(fmt=rng.choice(fmts))
+        if kind == "restart":
+            # crash after unsaved edits: rebuild from the last acknowledged save, if any
+            op["late"] = rng.random() < 0.4
         if kind == "export" and rng.random() < cfg.get("subset", 0.5):
             n = rng.randint(1, 3)
             op["subset"] = [_sel(rng, ["any", "leaf", "root", "div_child", "isolated"]) for _ in range(n)]
